@@ -296,7 +296,13 @@ psRes_t psX509ParseCertData(psPool_t *pool,
         }
         numParsed++;
         *tailp = current;
-        tailp = &(current->next);
+        /* One PEM block may hold several concatenated certificates: append
+           after the last of them, or the rest of that chain is overwritten
+           (and leaked) by the next block. */
+        while (*tailp != NULL)
+        {
+            tailp = &((*tailp)->next);
+        }
     }
     psFreeList(certDatas, pool);
     return numParsed;
